@@ -1,110 +1,68 @@
-/- Counter invariants of the (unguarded) commitment update protocol: what every event does to the
-   commitment_signed / revoke_and_ack counters and to the number of such messages in flight. Core only. -/
+/- Counter invariants of the (unguarded) commitment update protocol, with disconnections: the counters
+   are commitment NUMBERS (csSent = commitments signed, csRecv = commitments processed, raaRecv =
+   revocations processed); a retransmission never bumps them.  Core only. -/
 import LdkModel.Proofs.Channel.Guarded
 namespace Ldk.Chan
 
-def countCs (l : List Msg) : Nat := l.countP (fun m => match m with | .cs _ => true | _ => false)
-def countRaa (l : List Msg) : Nat := l.countP (fun m => match m with | .raa => true | _ => false)
-
-theorem countCs_append (l1 l2 : List Msg) : countCs (l1 ++ l2) = countCs l1 + countCs l2 := by
-  simp [countCs, List.countP_append]
-theorem countRaa_append (l1 l2 : List Msg) : countRaa (l1 ++ l2) = countRaa l1 + countRaa l2 := by
-  simp [countRaa, List.countP_append]
-
-theorem countCs_mkAdds (amts : List Nat) : ∀ k, countCs (mkAdds k amts) = 0 := by
-  induction amts with
-  | nil => intro k; rfl
-  | cons a as ih => intro k; simp only [mkAdds, countCs, List.countP_cons]; have := ih (k + 1); simp only [countCs] at this; simp [this]
-theorem countRaa_mkAdds (amts : List Nat) : ∀ k, countRaa (mkAdds k amts) = 0 := by
-  induction amts with
-  | nil => intro k; rfl
-  | cons a as ih => intro k; simp only [mkAdds, countRaa, List.countP_cons]; have := ih (k + 1); simp only [countRaa] at this; simp [this]
-
-theorem count_batch (n : Node) (adds fu fa : List Nat) :
-    countCs (batchOf n adds fu fa) = 1 ∧ countRaa (batchOf n adds fu fa) = 0 := by
-  unfold batchOf
-  refine ⟨?_, ?_⟩
-  · rw [countCs_append, countCs_append, countCs_append, countCs_mkAdds]
-    simp [countCs, List.countP_eq_zero]
-  · rw [countRaa_append, countRaa_append, countRaa_append, countRaa_mkAdds]
-    simp [countRaa, List.countP_eq_zero]
-
 /-- the a→b handshake: `a`'s commitment_signed, `b`'s revoke_and_ack -/
 structure CntD (s : Sys) : Prop where
-  k1 : s.b.csRecv + countCs (s.qab ++ s.pendA) = s.a.csSent
-  k2 : s.a.raaRecv + countRaa s.qba = s.b.raaSent
+  /-- a commitment_signed on the wire or held back has been signed and not yet processed -/
+  k1 : s.b.csRecv + countCs (s.qab ++ s.pendA) ≤ s.a.csSent
+  /-- a revoke_and_ack on the wire has been sent and not yet processed -/
+  k2 : s.a.raaRecv + countRaa s.qba ≤ s.b.raaSent
   k3 : s.a.csSent = s.a.raaRecv + (if s.a.awaitingRaa then 1 else 0)
   k4 : s.a.raaSent + s.a.owesRaa = s.a.csRecv
   k5 : countRaa s.pendA = 0
+  k6 : s.a.paused = true → s.qab = []
 
-theorem CntD.init (va vb : Nat) : CntD (Sys.init va vb) := ⟨rfl, rfl, rfl, rfl, rfl⟩
-
-/-- per-message effect on the counters of the receiving node -/
-theorem onMsg_counters {n n' : Node} {total : Nat} {m : Msg} {ok : Bool} (h : n.onMsg total m = some (n', ok)) :
-    n'.csSent = n.csSent ∧ n'.raaSent = n.raaSent ∧
-    (match m with
-     | .cs _ => n'.csRecv = n.csRecv + 1 ∧ n'.owesRaa = n.owesRaa + 1 ∧ n'.raaRecv = n.raaRecv ∧ n'.awaitingRaa = n.awaitingRaa
-     | .raa => n'.csRecv = n.csRecv ∧ n'.owesRaa = n.owesRaa ∧ n'.raaRecv = n.raaRecv + 1 ∧ n.awaitingRaa = true ∧ n'.awaitingRaa = false
-     | _ => n'.csRecv = n.csRecv ∧ n'.owesRaa = n.owesRaa ∧ n'.raaRecv = n.raaRecv ∧ n'.awaitingRaa = n.awaitingRaa) := by
-  cases m with
-  | add id amt => obtain ⟨_, _, e⟩ := onMsg_add h; subst e; exact ⟨rfl, rfl, rfl, rfl, rfl, rfl⟩
-  | fulfill id => obtain ⟨_, _, e⟩ := onMsg_fulfill h; subst e; exact ⟨rfl, rfl, rfl, rfl, rfl, rfl⟩
-  | fail id => obtain ⟨_, _, e⟩ := onMsg_fail h; subst e; exact ⟨rfl, rfl, rfl, rfl, rfl, rfl⟩
-  | cs c => obtain ⟨e, _⟩ := onMsg_cs h; subst e; exact ⟨rfl, rfl, rfl, rfl, rfl, rfl⟩
-  | raa =>
-    obtain ⟨e, _⟩ := onMsg_raa h
-    unfold Node.onRaa at e
-    split at e
-    · contradiction
-    · rename_i haw
-      injection e with e; subst e
-      exact ⟨rfl, rfl, rfl, rfl, rfl, by simpa using haw, rfl⟩
+theorem CntD.init (va vb : Nat) : CntD (Sys.init va vb) :=
+  ⟨Nat.le_refl _, Nat.le_refl _, rfl, rfl, rfl, fun h => by cases h⟩
 
 theorem CntD.step {s s' : Sys} {e : Ev} (hc : CntD s) (hc' : CntD s.swap) (h : step s e = some s') : CntD s' := by
-  obtain ⟨k1, k2, k3, k4, k5⟩ := hc
+  obtain ⟨k1, k2, k3, k4, k5, k6⟩ := hc
   cases e with
   | commit x adds fu fa =>
     cases x
-    · obtain ⟨_, n, ms, hcm, e⟩ := step_commit_false h
+    · obtain ⟨_, _, n, ms, hcm, e⟩ := step_commit_false h
       obtain ⟨_, _, en, _⟩ := commit_some hcm
       subst e; subst en
-      exact ⟨k1, k2, k3, k4, k5⟩
-    · obtain ⟨hp, n, ms, hcm, e⟩ := step_commit_true h
+      exact ⟨k1, k2, k3, k4, k5, k6⟩
+    · obtain ⟨hpa, hp, n, ms, hcm, e⟩ := step_commit_true h
       obtain ⟨haw, _, en, ems⟩ := commit_some hcm
       subst e; subst en; subst ems
       obtain ⟨c1, c2⟩ := count_batch s.a adds fu fa
       rw [hp] at k1
       simp only [List.append_nil] at k1
-      refine ⟨?_, k2, ?_, k4, c2⟩
-      · show s.b.csRecv + countCs (s.qab ++ batchOf s.a adds fu fa) = s.a.csSent + 1
+      refine ⟨?_, k2, ?_, k4, c2, fun hp' => absurd hp' (by show ¬ (s.a.paused = true); rw [hpa]; simp)⟩
+      · show s.b.csRecv + countCs (s.qab ++ batchOf s.a adds fu fa) ≤ s.a.csSent + 1
         rw [countCs_append, c1]; omega
       · show s.a.csSent + 1 = s.a.raaRecv + 1
         rw [haw] at k3; simpa using k3
   | release x =>
     cases x
-    · obtain ⟨_, _, e⟩ := step_release_false h
+    · obtain ⟨_, _, _, e⟩ := step_release_false h
       subst e
-      refine ⟨k1, ?_, k3, k4, k5⟩
-      show s.a.raaRecv + countRaa (s.qba ++ s.pendB) = s.b.raaSent
+      refine ⟨k1, ?_, k3, k4, k5, k6⟩
+      show s.a.raaRecv + countRaa (s.qba ++ s.pendB) ≤ s.b.raaSent
       rw [countRaa_append, show countRaa s.pendB = 0 from hc'.k5]; exact k2
-    · obtain ⟨_, _, e⟩ := step_release_true h
+    · obtain ⟨hpa, _, _, e⟩ := step_release_true h
       subst e
-      refine ⟨?_, k2, k3, k4, rfl⟩
-      show s.b.csRecv + countCs ((s.qab ++ s.pendA) ++ []) = s.a.csSent
+      refine ⟨?_, k2, k3, k4, rfl, fun hp' => absurd hp' (by show ¬ (s.a.paused = true); rw [hpa]; simp)⟩
+      show s.b.csRecv + countCs ((s.qab ++ s.pendA) ++ []) ≤ s.a.csSent
       rw [List.append_nil]; exact k1
   | sendRaa x =>
     cases x
-    · obtain ⟨ho, e⟩ := step_sendRaa_false h
+    · obtain ⟨_, ho, e⟩ := step_sendRaa_false h
       subst e
-      refine ⟨k1, ?_, k3, k4, k5⟩
-      show s.a.raaRecv + countRaa (s.qba ++ [Msg.raa]) = s.b.raaSent + 1
+      refine ⟨k1, ?_, k3, k4, k5, k6⟩
+      show s.a.raaRecv + countRaa (s.qba ++ [Msg.raa]) ≤ s.b.raaSent + 1
       rw [countRaa_append]
       have : countRaa [Msg.raa] = 1 := rfl
       omega
-    · obtain ⟨ho, e⟩ := step_sendRaa_true h
+    · obtain ⟨hpa, ho, e⟩ := step_sendRaa_true h
       subst e
-      refine ⟨?_, k2, k3, ?_, k5⟩
-      · show s.b.csRecv + countCs ((s.qab ++ [Msg.raa]) ++ s.pendA) = s.a.csSent
+      refine ⟨?_, k2, k3, ?_, k5, fun hp' => absurd hp' (by show ¬ (s.a.paused = true); rw [hpa]; simp)⟩
+      · show s.b.csRecv + countCs ((s.qab ++ [Msg.raa]) ++ s.pendA) ≤ s.a.csSent
         rw [countCs_append, countCs_append]
         rw [countCs_append] at k1
         have : countCs [Msg.raa] = 0 := rfl
@@ -113,45 +71,31 @@ theorem CntD.step {s s' : Sys} {e : Ev} (hc : CntD s) (hc' : CntD s.swap) (h : s
         omega
   | recv y =>
     cases y
-    · obtain ⟨m, rest, n, okb, hq, hm, e⟩ := step_recv_false h
+    · obtain ⟨_, m, rest, n, okb, hq, hm, e⟩ := step_recv_false h
       subst e
       obtain ⟨_, e2, e3⟩ := onMsg_counters hm
       rw [hq] at k1
-      cases m with
-      | cs c =>
-        obtain ⟨e4, _⟩ := e3
-        refine ⟨?_, by show _ = n.raaSent; rw [e2]; exact k2, k3, k4, k5⟩
-        show n.csRecv + countCs (rest ++ s.pendA) = s.a.csSent
-        rw [e4]; simp [countCs] at k1 ⊢; omega
-      | raa =>
-        obtain ⟨e4, _⟩ := e3
-        refine ⟨?_, by show _ = n.raaSent; rw [e2]; exact k2, k3, k4, k5⟩
-        show n.csRecv + countCs (rest ++ s.pendA) = s.a.csSent
-        rw [e4]; simp [countCs] at k1 ⊢; omega
-      | add id amt =>
-        obtain ⟨e4, _⟩ := e3
-        refine ⟨?_, by show _ = n.raaSent; rw [e2]; exact k2, k3, k4, k5⟩
-        show n.csRecv + countCs (rest ++ s.pendA) = s.a.csSent
-        rw [e4]; simp [countCs] at k1 ⊢; omega
-      | fulfill id =>
-        obtain ⟨e4, _⟩ := e3
-        refine ⟨?_, by show _ = n.raaSent; rw [e2]; exact k2, k3, k4, k5⟩
-        show n.csRecv + countCs (rest ++ s.pendA) = s.a.csSent
-        rw [e4]; simp [countCs] at k1 ⊢; omega
-      | fail id =>
-        obtain ⟨e4, _⟩ := e3
-        refine ⟨?_, by show _ = n.raaSent; rw [e2]; exact k2, k3, k4, k5⟩
-        show n.csRecv + countCs (rest ++ s.pendA) = s.a.csSent
-        rw [e4]; simp [countCs] at k1 ⊢; omega
-    · obtain ⟨m, rest, n, okb, hq, hm, e⟩ := step_recv_true h
+      have hq6 : s.a.paused = true → rest = [] := by intro hp; have := k6 hp; rw [this] at hq; cases hq
+      have key : n.csRecv + countCs (rest ++ s.pendA) ≤ s.a.csSent := by
+        rw [List.cons_append] at k1
+        cases m with
+        | cs c => rw [e3.1]; simp [countCs, List.countP_cons] at k1 ⊢; omega
+        | raa => rw [e3.1]; simp [countCs, List.countP_cons] at k1 ⊢; omega
+        | add _ _ => rw [e3.1]; simp [countCs, List.countP_cons] at k1 ⊢; omega
+        | fulfill _ => rw [e3.1]; simp [countCs, List.countP_cons] at k1 ⊢; omega
+        | fail _ => rw [e3.1]; simp [countCs, List.countP_cons] at k1 ⊢; omega
+      exact ⟨key, by show _ ≤ n.raaSent; rw [e2]; exact k2, k3, k4, k5, hq6⟩
+    · obtain ⟨hpa, m, rest, n, okb, hq, hm, e⟩ := step_recv_true h
       subst e
       obtain ⟨e1, e2, e3⟩ := onMsg_counters hm
+      have hnp := onMsg_paused hm
       rw [hq] at k2
+      have h6 : n.paused = true → s.qab = [] := by intro hp; rw [hnp, hpa] at hp; cases hp
       cases m with
       | cs c =>
         obtain ⟨e4, e5, e6, e7⟩ := e3
-        refine ⟨by show _ = n.csSent; rw [e1]; exact k1, ?_, ?_, ?_, k5⟩
-        · show n.raaRecv + countRaa rest = s.b.raaSent
+        refine ⟨by show _ ≤ n.csSent; rw [e1]; exact k1, ?_, ?_, ?_, k5, h6⟩
+        · show n.raaRecv + countRaa rest ≤ s.b.raaSent
           rw [e6]; simp [countRaa] at k2 ⊢; omega
         · show n.csSent = n.raaRecv + (if n.awaitingRaa then 1 else 0)
           rw [e1, e6, e7]; exact k3
@@ -159,8 +103,8 @@ theorem CntD.step {s s' : Sys} {e : Ev} (hc : CntD s) (hc' : CntD s.swap) (h : s
           rw [e2, e4, e5]; omega
       | raa =>
         obtain ⟨e4, e5, e6, e7, e8⟩ := e3
-        refine ⟨by show _ = n.csSent; rw [e1]; exact k1, ?_, ?_, ?_, k5⟩
-        · show n.raaRecv + countRaa rest = s.b.raaSent
+        refine ⟨by show _ ≤ n.csSent; rw [e1]; exact k1, ?_, ?_, ?_, k5, h6⟩
+        · show n.raaRecv + countRaa rest ≤ s.b.raaSent
           rw [e6]; simp [countRaa] at k2 ⊢; omega
         · show n.csSent = n.raaRecv + (if n.awaitingRaa then 1 else 0)
           rw [e1, e6, e8]; rw [e7] at k3; simpa using k3
@@ -168,8 +112,8 @@ theorem CntD.step {s s' : Sys} {e : Ev} (hc : CntD s) (hc' : CntD s.swap) (h : s
           rw [e2, e4, e5]; omega
       | add id amt =>
         obtain ⟨e4, e5, e6, e7⟩ := e3
-        refine ⟨by show _ = n.csSent; rw [e1]; exact k1, ?_, ?_, ?_, k5⟩
-        · show n.raaRecv + countRaa rest = s.b.raaSent
+        refine ⟨by show _ ≤ n.csSent; rw [e1]; exact k1, ?_, ?_, ?_, k5, h6⟩
+        · show n.raaRecv + countRaa rest ≤ s.b.raaSent
           rw [e6]; simp [countRaa] at k2 ⊢; omega
         · show n.csSent = n.raaRecv + (if n.awaitingRaa then 1 else 0)
           rw [e1, e6, e7]; exact k3
@@ -177,8 +121,8 @@ theorem CntD.step {s s' : Sys} {e : Ev} (hc : CntD s) (hc' : CntD s.swap) (h : s
           rw [e2, e4, e5]; omega
       | fulfill id =>
         obtain ⟨e4, e5, e6, e7⟩ := e3
-        refine ⟨by show _ = n.csSent; rw [e1]; exact k1, ?_, ?_, ?_, k5⟩
-        · show n.raaRecv + countRaa rest = s.b.raaSent
+        refine ⟨by show _ ≤ n.csSent; rw [e1]; exact k1, ?_, ?_, ?_, k5, h6⟩
+        · show n.raaRecv + countRaa rest ≤ s.b.raaSent
           rw [e6]; simp [countRaa] at k2 ⊢; omega
         · show n.csSent = n.raaRecv + (if n.awaitingRaa then 1 else 0)
           rw [e1, e6, e7]; exact k3
@@ -186,13 +130,57 @@ theorem CntD.step {s s' : Sys} {e : Ev} (hc : CntD s) (hc' : CntD s.swap) (h : s
           rw [e2, e4, e5]; omega
       | fail id =>
         obtain ⟨e4, e5, e6, e7⟩ := e3
-        refine ⟨by show _ = n.csSent; rw [e1]; exact k1, ?_, ?_, ?_, k5⟩
-        · show n.raaRecv + countRaa rest = s.b.raaSent
+        refine ⟨by show _ ≤ n.csSent; rw [e1]; exact k1, ?_, ?_, ?_, k5, h6⟩
+        · show n.raaRecv + countRaa rest ≤ s.b.raaSent
           rw [e6]; simp [countRaa] at k2 ⊢; omega
         · show n.csSent = n.raaRecv + (if n.awaitingRaa then 1 else 0)
           rw [e1, e6, e7]; exact k3
         · show n.raaSent + n.owesRaa = n.csRecv
           rw [e2, e4, e5]; omega
+  | disconnect =>
+    have e := step_disconnect h
+    obtain ⟨pa1, pa2, pa3, pa4, pa5, pa6, pa7, pa8⟩ := pause_fields' s.a
+    obtain ⟨pb1, pb2, pb3, pb4, pb5, pb6, pb7, pb8⟩ := pause_fields' s.b
+    subst e
+    refine ⟨?_, ?_, ?_, ?_, k5, fun _ => rfl⟩
+    · show s.b.pause.csRecv + countCs ([] ++ s.pendA) ≤ s.a.pause.csSent
+      rw [pb6, pa5, List.nil_append]
+      rw [countCs_append] at k1; omega
+    · show s.a.pause.raaRecv + countRaa [] ≤ s.b.pause.raaSent
+      rw [pa8, pb7]
+      have : countRaa ([] : List Msg) = 0 := rfl
+      omega
+    · show s.a.pause.csSent = s.a.pause.raaRecv + (if s.a.pause.awaitingRaa then 1 else 0)
+      rw [pa5, pa8, pa2]; exact k3
+    · show s.a.pause.raaSent + s.a.pause.owesRaa = s.a.pause.csRecv
+      rw [pa7, pa3, pa6]; exact k4
+  | reest y =>
+    cases y
+    · obtain ⟨n, p, hr, e⟩ := step_reest_false h
+      obtain ⟨hpb, _, _, _, _, en, _⟩ := reestablish_some hr
+      have hqba : s.qba = [] := hc'.k6 hpb
+      subst e; subst en
+      refine ⟨k1, ?_, k3, k4, k5, k6⟩
+      show s.a.raaRecv + countRaa s.qba ≤ s.a.raaRecv
+      rw [hqba]; exact Nat.le_refl _
+    · obtain ⟨n, p, hr, e⟩ := step_reest_true h
+      obtain ⟨hpa, g1, g2, g3, g4, en, ep⟩ := reestablish_some hr
+      have hq := k6 hpa
+      subst e; subst en; subst ep
+      refine ⟨?_, k2, k3, ?_, ?_, fun hp' => by cases hp'⟩
+      · show s.b.csRecv + countCs (s.qab ++ s.a.retrans s.b.csRecv) ≤ s.a.csSent
+        rw [hq, List.nil_append]
+        unfold Node.retrans
+        by_cases hcs : s.a.csSent = s.b.csRecv
+        · rw [if_pos hcs]; simp [countCs]; omega
+        · rw [if_neg hcs, (count_lastBatch _).1]; omega
+      · show s.b.raaRecv + (s.a.csRecv - s.b.raaRecv) = s.a.csRecv
+        omega
+      · show countRaa (s.a.retrans s.b.csRecv) = 0
+        unfold Node.retrans
+        split
+        · rfl
+        · exact (count_lastBatch _).2
 
 def Cnt (s : Sys) : Prop := CntD s ∧ CntD s.swap
 
@@ -212,58 +200,65 @@ theorem Cnt.run : ∀ (evs : List Ev) (s s' : Sys), Cnt s → Chan.run s evs = s
     | none => simp [hs] at h
     | some s1 => rw [hs] at h; exact ih s1 s' (hc.step hs) h
 
-theorem Cnt.init (va vb : Nat) : Cnt (Sys.init va vb) := ⟨CntD.init va vb, ⟨rfl, rfl, rfl, rfl, rfl⟩⟩
+theorem Cnt.init (va vb : Nat) : Cnt (Sys.init va vb) :=
+  ⟨CntD.init va vb, ⟨Nat.le_refl _, Nat.le_refl _, rfl, rfl, rfl, fun h => by cases h⟩⟩
 
-/-! ### event counts -/
+/-! ### event counts: the commitment numbers count the `commit` events (retransmissions do not) -/
 
 def isCommit (x : Bool) : Ev → Bool
   | .commit y _ _ _ => x == y
   | _ => false
-def isSendRaa (x : Bool) : Ev → Bool
-  | .sendRaa y => x == y
-  | _ => false
 
 theorem step_event_counts {s s' : Sys} {e : Ev} (h : step s e = some s') :
     s'.a.csSent = s.a.csSent + (if isCommit true e then 1 else 0) ∧
-    s'.a.raaSent = s.a.raaSent + (if isSendRaa true e then 1 else 0) ∧
-    s'.b.csSent = s.b.csSent + (if isCommit false e then 1 else 0) ∧
-    s'.b.raaSent = s.b.raaSent + (if isSendRaa false e then 1 else 0) := by
+    s'.b.csSent = s.b.csSent + (if isCommit false e then 1 else 0) := by
   cases e with
   | commit x adds fu fa =>
     cases x
-    · obtain ⟨_, n, ms, hcm, e⟩ := step_commit_false h
+    · obtain ⟨_, _, n, ms, hcm, e⟩ := step_commit_false h
       obtain ⟨_, _, en, _⟩ := commit_some hcm
-      subst e; subst en; exact ⟨rfl, rfl, rfl, rfl⟩
-    · obtain ⟨_, n, ms, hcm, e⟩ := step_commit_true h
+      subst e; subst en; exact ⟨rfl, rfl⟩
+    · obtain ⟨_, _, n, ms, hcm, e⟩ := step_commit_true h
       obtain ⟨_, _, en, _⟩ := commit_some hcm
-      subst e; subst en; exact ⟨rfl, rfl, rfl, rfl⟩
+      subst e; subst en; exact ⟨rfl, rfl⟩
   | release x =>
     cases x
-    · obtain ⟨_, _, e⟩ := step_release_false h; subst e; exact ⟨rfl, rfl, rfl, rfl⟩
-    · obtain ⟨_, _, e⟩ := step_release_true h; subst e; exact ⟨rfl, rfl, rfl, rfl⟩
+    · obtain ⟨_, _, _, e⟩ := step_release_false h; subst e; exact ⟨rfl, rfl⟩
+    · obtain ⟨_, _, _, e⟩ := step_release_true h; subst e; exact ⟨rfl, rfl⟩
   | sendRaa x =>
     cases x
-    · obtain ⟨_, e⟩ := step_sendRaa_false h; subst e; exact ⟨rfl, rfl, rfl, rfl⟩
-    · obtain ⟨_, e⟩ := step_sendRaa_true h; subst e; exact ⟨rfl, rfl, rfl, rfl⟩
+    · obtain ⟨_, _, e⟩ := step_sendRaa_false h; subst e; exact ⟨rfl, rfl⟩
+    · obtain ⟨_, _, e⟩ := step_sendRaa_true h; subst e; exact ⟨rfl, rfl⟩
   | recv y =>
     cases y
-    · obtain ⟨m, rest, n, okb, _, hm, e⟩ := step_recv_false h
+    · obtain ⟨_, m, rest, n, okb, _, hm, e⟩ := step_recv_false h
       subst e
-      obtain ⟨e1, e2, _⟩ := onMsg_counters hm
-      exact ⟨rfl, rfl, by show n.csSent = _; rw [e1]; rfl, by show n.raaSent = _; rw [e2]; rfl⟩
-    · obtain ⟨m, rest, n, okb, _, hm, e⟩ := step_recv_true h
+      obtain ⟨e1, _, _⟩ := onMsg_counters hm
+      exact ⟨rfl, by show n.csSent = _; rw [e1]; rfl⟩
+    · obtain ⟨_, m, rest, n, okb, _, hm, e⟩ := step_recv_true h
       subst e
-      obtain ⟨e1, e2, _⟩ := onMsg_counters hm
-      exact ⟨by show n.csSent = _; rw [e1]; rfl, by show n.raaSent = _; rw [e2]; rfl, rfl, rfl⟩
+      obtain ⟨e1, _, _⟩ := onMsg_counters hm
+      exact ⟨by show n.csSent = _; rw [e1]; rfl, rfl⟩
+  | disconnect =>
+    have e := step_disconnect h
+    subst e
+    exact ⟨by show s.a.pause.csSent = _; rw [(pause_fields' s.a).2.2.2.2.1]; rfl,
+      by show s.b.pause.csSent = _; rw [(pause_fields' s.b).2.2.2.2.1]; rfl⟩
+  | reest y =>
+    cases y
+    · obtain ⟨n, p, hr, e⟩ := step_reest_false h
+      obtain ⟨_, _, _, _, _, en, _⟩ := reestablish_some hr
+      subst e; subst en; exact ⟨rfl, rfl⟩
+    · obtain ⟨n, p, hr, e⟩ := step_reest_true h
+      obtain ⟨_, _, _, _, _, en, _⟩ := reestablish_some hr
+      subst e; subst en; exact ⟨rfl, rfl⟩
 
 theorem run_event_counts : ∀ (evs : List Ev) (s s' : Sys), run s evs = some s' →
     s'.a.csSent = s.a.csSent + evs.countP (isCommit true) ∧
-    s'.a.raaSent = s.a.raaSent + evs.countP (isSendRaa true) ∧
-    s'.b.csSent = s.b.csSent + evs.countP (isCommit false) ∧
-    s'.b.raaSent = s.b.raaSent + evs.countP (isSendRaa false) := by
+    s'.b.csSent = s.b.csSent + evs.countP (isCommit false) := by
   intro evs
   induction evs with
-  | nil => intro s s' h; simp only [run] at h; injection h with h; subst h; exact ⟨rfl, rfl, rfl, rfl⟩
+  | nil => intro s s' h; simp only [run] at h; injection h with h; subst h; exact ⟨rfl, rfl⟩
   | cons e es ih =>
     intro s s' h
     simp only [run] at h
@@ -271,9 +266,9 @@ theorem run_event_counts : ∀ (evs : List Ev) (s s' : Sys), run s evs = some s'
     | none => simp [hs] at h
     | some s1 =>
       rw [hs] at h
-      obtain ⟨a1, a2, a3, a4⟩ := step_event_counts hs
-      obtain ⟨b1, b2, b3, b4⟩ := ih s1 s' h
+      obtain ⟨a1, a3⟩ := step_event_counts hs
+      obtain ⟨b1, b3⟩ := ih s1 s' h
       simp only [List.countP_cons]
-      refine ⟨by rw [b1, a1]; omega, by rw [b2, a2]; omega, by rw [b3, a3]; omega, by rw [b4, a4]; omega⟩
+      refine ⟨by rw [b1, a1]; omega, by rw [b3, a3]; omega⟩
 
 end Ldk.Chan
